@@ -4,15 +4,17 @@
   Statement (properties.jsonl): for every target type and every input of any dynamic Go type
   a cast returns without panicking either a nil error with a result that is nil exactly when
   the input is nil and otherwise of exactly the requested type, or a nil result with an error
-  that wraps the package's cast-failure sentinel.
+  that wraps the package's cast-failure sentinel.  Consequently the raw value of a column
+  declared with raw type T is nil or a T after every successful import (`import_typed`).
 
   Theorems are about `genTables` (regenerated from pkg/cast on every run).
 -/
 import Proofs.CastInt
 import Proofs.CastTyped
+import Model.Value
 
 namespace Jl.C10
-open Jl Cast CastTyped
+open Jl Cast CastTyped Jl.Value
 
 set_option linter.unusedSimpArgs false
 
@@ -84,8 +86,100 @@ theorem no_typed_violation (ext : Ext) (t : Ty) (ht : t ≠ .none) (v : Dyn) :
       castTo genTables ext t v = .err .ext :=
   gen_castTo_no_violation ext t ht v
 
+/-! Row level -/
+
+private theorem importFail_ok {o : Outcome Dyn} {r : Dyn} (h : importFail o = .ok r) : o = .ok r := by
+  cases o with
+  | ok x => simpa [importFail] using h
+  | err e => cases e <;> simp [importFail] at h
+  | panic s => simp [importFail] at h
+
+private theorem castTo_ok_typed (ext : Ext) (typ : Ty) (ht : typ ≠ .none) (v r : Dyn)
+    (h : importFail (castTo genTables ext typ v) = .ok r) : r = .nil ∨ typeOf r = typ := by
+  have h' := importFail_ok h
+  have := gen_castTo_typed ext typ ht v r h'
+  by_cases hv : v = .nil
+  · left; exact this.1.mpr hv
+  · right; exact this.2 hv
+
+private theorem importFrom_typed (ext : Ext) (name : String) (typ : Ty) (ht : typ ≠ .none) (v r : Dyn)
+    (h : importFrom ⟨genTables, ext⟩ name v typ = .ok r) : r = .nil ∨ typeOf r = typ := by
+  unfold importFrom at h
+  split at h
+  · exact absurd rfl ht
+  · exact castTo_ok_typed ext typ ht v r h
+
+private theorem importFromBinary_typed (ext : Ext) (typ : Ty) (ht : typ ≠ .none) (v r : Dyn)
+    (h : importFromBinary ⟨genTables, ext⟩ v typ = .ok r) : r = .nil ∨ typeOf r = typ := by
+  unfold importFromBinary at h
+  split at h
+  · split at h
+    · cases h
+    · split at h
+      · exact absurd rfl ht
+      · exact castTo_ok_typed ext typ ht _ r h
+  · cases h
+  · cases h
+  · rename_i o h1 h2 h3
+    -- the remaining outcomes of ToString are errors or panics, never `.ok`
+    cases hto : importFail (castNamed genTables ext "ToString" v) with
+    | ok x =>
+      rw [hto] at h
+      cases x <;> simp_all
+    | err e => rw [hto] at h; cases h
+    | panic s => rw [hto] at h; cases h
+
+/-- C10, last sentence: after a successful import of anything that is not itself a
+    jsonline.Value, the raw value of a column declared with raw type `typ` is nil or of
+    exactly that type — for every format, over the casters of the current source. -/
+theorem import_typed (ext : Ext) (f : Format) (typ : Ty) (ht : typ ≠ .none) (v : Dyn)
+    (hv : ∀ w, v ≠ .val w) (c : Val)
+    (h : importCell ⟨genTables, ext⟩ f typ v = .ok (c, none)) :
+    ∃ raw, c = .cell raw f typ ∧ (raw = .nil ∨ typeOf raw = typ) := by
+  have key : importByFormat ⟨genTables, ext⟩ f typ v = .ok (c, none) →
+      ∃ raw, c = .cell raw f typ ∧ (raw = .nil ∨ typeOf raw = typ) := by
+    intro hb
+    unfold importByFormat at hb
+    simp only at hb
+    split at hb
+    · rename_i r hres
+      cases hb
+      refine ⟨r, rfl, ?_⟩
+      cases f with
+      | string => exact importFrom_typed ext _ typ ht v r hres
+      | numeric => exact importFrom_typed ext _ typ ht v r hres
+      | boolean => exact importFrom_typed ext _ typ ht v r hres
+      | binary => exact importFromBinary_typed ext typ ht v r hres
+      | date => exact importFrom_typed ext _ typ ht v r hres
+      | datetime => exact importFrom_typed ext _ typ ht v r hres
+      | timestamp => exact importFrom_typed ext _ typ ht v r hres
+      | auto =>
+        have := gen_castTo_typed ext typ ht v r hres
+        by_cases hn : v = .nil
+        · left; exact this.1.mpr hn
+        · right; exact this.2 hn
+      | hidden =>
+        have := gen_castTo_typed ext typ ht v r hres
+        by_cases hn : v = .nil
+        · left; exact this.1.mpr hn
+        · right; exact this.2 hn
+      | bad => cases hres
+    · cases hb
+    · cases hb
+    · cases hb
+  unfold importCell at h
+  split at h
+  · cases h; exact ⟨.nil, rfl, Or.inl rfl⟩
+  · rename_i ms
+    exact absurd rfl (hv (.row ms))
+  · rename_i w _
+    exact absurd rfl (hv w)
+  · exact key h
+
 /-! Non-vacuity -/
 example : "ToTime" ∈ casterNames := by decide
 example : castNamed genTables Ext.empty "ToBool" (.str [0x74]) = .ok (.bool true) := by rfl
+
+example : ∃ c, importCell ⟨genTables, Ext.empty⟩ .numeric (.int .i8) (.num [0x37]) = .ok (c, none) := ⟨_, rfl⟩
 
 end Jl.C10
